@@ -1015,7 +1015,15 @@ class RZILTransformer(Transformer):
 
     def block_item(self, items):
         self.ext.set_token_meta_data("block_item")
-        return items[0]
+        item = items[0]
+        if (
+            isinstance(item, LocalVar)
+            and item.get_name() in self.il_ops_holder.hybrid_effect_dict
+        ):
+            # The statement is a hybrid whose value is not used (e.g. "i++;" or "fcn(x);").
+            # Its effect must be executed at this position. Not before all other statements.
+            return self.il_ops_holder.hybrid_effect_dict.pop(item.get_name())
+        return item
 
     def chk_hybrid_dep(
         self, effect: Effect, order: HybridSeqOrder = HybridSeqOrder.HYB_THEN_SEQ
